@@ -46,6 +46,7 @@ type Ast struct {
 	Max     int
 	Lazy    bool
 	On, Off string // AOptGroup: letters among imsnx
+	ForceBare bool // AOptGroup: always use the stand-alone spelling where it is allowed
 	Bare    bool   // AOptGroup at the tail of its enclosing group: printed as the stand-alone form (?on-off) followed by its body
 	Ref     int
 	Kids    []*Ast
@@ -319,7 +320,7 @@ func (a *Ast) markBare(r *Rng, tail bool) {
 			k.markBare(r, true)
 		}
 	case AOptGroup:
-		a.Bare = tail && a.Kids[0].Kind != AAlt && r.Chance(50)
+		a.Bare = tail && a.Kids[0].Kind != AAlt && (a.ForceBare || r.Chance(50))
 		a.Kids[0].markBare(r, !a.Bare || tail) // scoped spelling: a new group; bare: still at the tail of the outer one
 	default:
 		for _, k := range a.Kids {
